@@ -30,10 +30,10 @@ ASSUMPTIONS = ['all-ones == missing across an encode (2.6): accepted only when R
 BUDGET = {'quick': 45, 'thorough': 600}
 QUOTA = {'quick': 60, 'thorough': 1200}
 REQUIRED = {'quick': {'evaluations': 1500, 'compressed_pairs': 400, 'uncompressed_pairs': 400, 'repeat_collections': 300,
-                      'out_of_range_refused': 200, 'source_digest_checks': 1500, 'exhaustive_small_n_messages': 30,
+                      'out_of_range_refused': 200, 'valid_selection_after_refusal': 200, 'source_digest_checks': 1500, 'exhaustive_small_n_messages': 30,
                       'cli_subset_runs': 4},
             'thorough': {'evaluations': 30000, 'compressed_pairs': 8000, 'uncompressed_pairs': 8000,
-                      'repeat_collections': 6000, 'out_of_range_refused': 4000, 'source_digest_checks': 30000,
+                      'repeat_collections': 6000, 'out_of_range_refused': 4000, 'valid_selection_after_refusal': 4000, 'source_digest_checks': 30000,
                       'exhaustive_small_n_messages': 600, 'cli_subset_runs': 60}}
 
 
@@ -248,6 +248,32 @@ def check_pairs(ctx, dec, enc, b, rmeta, spec, origin):
         except Exception as e:
             ctx.count('out_of_range_refused')
             ctx.add('out_of_range_exceptions', type(e).__name__)
+            # a refused selection leaves the source as it was, and the next valid selection on the same message, encoder and
+            # decoder still gives the selected subsets
+            if digest(m) != dg0:
+                ctx.violate('source-message-modified/after-refusal/%s' % mode,
+                            'the source message changed after the refused subset(%r)' % (I,), dict(spec, indices=I))
+                return
+            if n > 0:
+                k = rng.randrange(n)
+                try:
+                    m3 = dec.process(enc.process(m.subset([k])).serialized_bytes)
+                    td3 = td_of(m3)
+                    ok = (len(td3.decoded_values_all_subsets) == 1
+                          and [str(d) for d in td3.decoded_descriptors_all_subsets[0]] == src_labels[k]
+                          and len(td3.decoded_values_all_subsets[0]) == len(src_vals[k])
+                          and all(same_value(a, bb, None) or bb is None
+                                  for a, bb in zip(src_vals[k], td3.decoded_values_all_subsets[0])))
+                except Exception as e2:
+                    if isinstance(e2, OSError) and unbundled_local_tables(m):
+                        continue
+                    ok = False
+                ctx.count('valid_selection_after_refusal')
+                if not ok:
+                    ctx.violate('selection-differs/after-refusal/%s' % mode,
+                                'subset([%d]) after the refused subset(%r) does not give source subset %d' % (k, I, k),
+                                dict(spec, indices=I, then=[k]))
+                    return
             continue
         ctx.evaluated((len(b), 'oor', I), True)
         ctx.violate('out-of-range-accepted/%s' % ('negative' if min(I) < 0 else 'too-large'),
